@@ -188,6 +188,20 @@ CHECKS["C15"] = {
     "technique": "Coq proof of the two quoting layers + execution of every case through the real Graphviz with structural oracle",
 }
 
+CHECKS["C13"] = {
+    "text": "Proof (Coq) on the model: pure exporters (PROV-JSON, PROV-N, graph, ==, record ==, typed listing) return the world "
+            "unchanged, hence any interleaving and repetition of them does and the same export repeated gives the same answer; "
+            "unified, flattened, graph round trip and document-from-records only append a document (frame). In the model "
+            "exports cannot write, so for the implementation the 'does not write' half rests on the tie: the model must "
+            "predict every document after every export call, and a direct oracle calls 15 exporters (incl. PROV-XML, RDF, DOT, "
+            "hash) on every document in a program-dependent order with repetitions and compares strict content, record order, "
+            "namespaces and default namespace before/after, text identity of repeated exports, RDF isomorphism, and "
+            "same-calls determinism in fresh interpreters (thorough: other PYTHONHASHSEEDs) — proof on the model + "
+            "correspondence (partial).",
+    "design_ref": "DESIGN.md §5 C13, §10",
+    "technique": "Coq purity/frame theorems over the interpreter + differential correspondence and before/after oracle",
+}
+
 NOT_YET = {}
 
 
